@@ -56,6 +56,20 @@ def evaluate(pid, patch, repo=X.REPO):
         shutil.rmtree(d, ignore_errors=True)
 
 
+# crates whose functions a property's rules read (a behaviour-preserving patch elsewhere cannot change their verdict)
+CRATES = {"C01": {"syntax"}, "C02": {"syntax"}, "C03": {"syntax"}, "C04": {"syntax"},
+          "C13": {"glas"}, "C15": {"glas", "ide"}, "C16": {"glas", "ide"}, "C19": {"glas", "ide"}}
+
+
+def touched_crates(patch):
+    out = set()
+    with open(patch) as fh:
+        for line in fh:
+            if line.startswith("+++ b/crates/") or line.startswith("--- a/crates/"):
+                out.add(line.split("/")[2])
+    return out
+
+
 def run(pid, res):
     root = os.path.join(X.VERIF, "seeded")
     n = 0
@@ -67,6 +81,8 @@ def run(pid, res):
         expect = meta.get("caught_by", {}).get(pid)
         benign = meta.get("benign") and pid in meta.get("silent_for", [])
         if not expect and not benign:
+            continue
+        if benign and pid in CRATES and not (touched_crates(patch) & CRATES[pid]):
             continue
         n += 1
         applied, failed, total = evaluate(pid, patch)
